@@ -185,8 +185,11 @@ func sameMultiset(a, b []string) bool {
 
 func checkC05(c *Check) {
 	L := c.L
-	c.Expl = "Structural clauses of 'every heap block is released exactly once', decided on the code generator and the C runtime without running either."
+	c.Expl = "Structural clauses of 'every heap block is released exactly once', decided on the code generator and the C runtime without running either: the generator's Visit* methods are partially evaluated over abstract operands (engine E2) and the stream of ownership events they emit (register/claim a temporary, deep copy, bitwise move, release, scope exit) is checked against the ledger discipline - per expression visitor and operand temporariness (R5.1), per storing statement (R5.6), per way of passing an argument incl. the -O2 copy elision and extern callees (R5.11); the scope-exit routines are evaluated on a concrete three-level ledger (R5.5); the basic-block skeleton each statement visitor emits (blocks, branches, per-block events, with the body ending in fall-through / Verlasse / Fahre fort) carries a typestate analysis of every registered value (R5.8, R5.9); primitive/non-primitive arms initialise the same destinations (R5.2); on clang's AST of the runtime and Duden C sources: (pointer, size) provenance of every resize/release (R5.3, also the generator's freeArr/growArr), capacity kept in step with in-place length changes (R5.4), the operand a concatenation function takes over ends reset or empty on every path and the generator never hands it a variable's value (R5.7), length-or-failure results are tested before use (R5.10). Not decided: leak/double-free freedom of whole programs, struct/Variable/list helper functions generated in IR other than slice and concatenation arms, the Duden library written in DDP."
 	checkC05Exits(c, L)
+	checkC05Ledger(c, L)
+	checkC05Stores(c, L)
+	checkC05Calls(c, L)
 	checkC05Arms(c, L)
 	checkC05Regions(c, L)
 	checkC05Typestate(c, L)
@@ -365,6 +368,601 @@ func checkC05Arms(c *Check, L *Loaded) {
 				r.OK(key, is.Pos(), "both arms initialise "+strings.Join(a, ", "))
 			} else {
 				r.Bad(key, is.Pos(), fmt.Sprintf("one arm initialises %v, the other %v: a destination is written twice (its first value leaks) and another stays uninitialised (later freed or read)", a, b))
+			}
+			return true
+		})
+	}
+}
+
+// ---- R5.1: the result register and the temporaries ledger, per expression visitor ----
+
+type ledgerVerdict struct {
+	bad []string
+}
+
+func irComponents(v *IRVal) []*IRVal {
+	if v == nil {
+		return nil
+	}
+	if v.Op == "phi" || v.Op == "select" {
+		var out []*IRVal
+		for _, a := range v.Args {
+			out = append(out, irComponents(a)...)
+		}
+		return out
+	}
+	return []*IRVal{v}
+}
+
+// baseOperand: the operand a pointer is derived from by element/field addressing (nil if none)
+func baseOperand(v *IRVal) *IRVal {
+	for v != nil {
+		switch v.Op {
+		case "operand":
+			return v
+		case "elementptr", "getelementptr", "bitcast":
+			if len(v.Args) == 0 {
+				return nil
+			}
+			v = v.Args[0]
+		case "load":
+			// load of a pointer field (list->arr) keeps the owner
+			if len(v.Args) == 1 {
+				v = v.Args[0]
+			} else {
+				return nil
+			}
+		default:
+			return nil
+		}
+	}
+	return nil
+}
+
+// takenOver: field name of a concatenation function -> index of the argument it takes over (from the generator itself)
+var takenOver map[string][]int
+
+func analyseLedger(in *Interp, cobj *Obj, temps map[string]bool, opt ...func(*IRVal) bool) []string {
+	var bad []string
+	// opt[0]: destinations owned by someone else (a statement's target); a statement has no result register
+	var isDest func(*IRVal) bool
+	if len(opt) > 0 {
+		isDest = opt[0]
+	}
+	ledger := map[*IRVal]bool{}
+	operand := map[*IRVal]string{}
+	owning := map[*IRVal]string{} // fresh allocas that hold an owned value: how they got it
+	handed := map[*IRVal]bool{}   // given to a callee that takes the value over, or moved out
+	for _, e := range in.Events {
+		switch {
+		case strings.HasPrefix(e.Kind, "evaluate:"):
+			if v, ok := e.Data[1].(*IRVal); ok {
+				name := strings.TrimPrefix(e.Kind, "evaluate:")
+				operand[v] = name
+				if temps[name] {
+					ledger[v] = true
+				}
+			}
+		case e.Kind == "addTemp":
+			v, _ := e.Data[0].(*IRVal)
+			if g, ok := e.Data[1].(*GenT); ok && g.prim() {
+				continue
+			}
+			if ledger[v] {
+				bad = append(bad, in.L.Pos(e.Pos)+": a value that is already a registered temporary is registered again: it is released twice when the scope ends")
+			}
+			for _, cpt := range irComponents(v) {
+				if b := baseOperand(cpt); b != nil && !temps[operand[b]] && cpt.Op != "alloca" {
+					if cpt == b || cpt.Op != "operand" {
+						bad = append(bad, in.L.Pos(e.Pos)+": storage of the operand "+operand[b]+", which is not a temporary (it belongs to a variable, element or field), is registered as a temporary: the scope end releases memory its owner releases again")
+					}
+				}
+			}
+			ledger[v] = true
+		case e.Kind == "claim":
+			v, _ := e.Data[0].(*IRVal)
+			if !ledger[v] {
+				bad = append(bad, in.L.Pos(e.Pos)+": claimTemporary of a value that is not a registered temporary (the compiler panics: 'attempted Value claim not found')")
+			}
+			delete(ledger, v)
+			handed[v] = true
+		case e.Kind == "deepCopy":
+			if d, ok := e.Data[0].(*IRVal); ok && d.Op == "alloca" {
+				owning[d] = "deep copy at " + in.L.Pos(e.Pos)
+			}
+		case e.Kind == "call":
+			if strings.HasSuffix(e.Msg, ".FreeFunc") {
+				if v, ok := e.Data[1].(*IRVal); ok {
+					if ledger[v] {
+						bad = append(bad, in.L.Pos(e.Pos)+": a registered temporary is released explicitly and again when its scope ends")
+					} else if n, isOp := operand[v]; isOp && !temps[n] {
+						bad = append(bad, in.L.Pos(e.Pos)+": the operand "+n+", which is not a temporary, is released although its owner releases it")
+					}
+					delete(owning, v)
+				}
+				continue
+			}
+			if strings.HasSuffix(e.Msg, ".EqualsFunc") {
+				continue
+			}
+			for _, idx := range takenOver[e.Msg[strings.LastIndex(e.Msg, ".")+1:]] {
+				if idx+1 >= len(e.Data) {
+					continue
+				}
+				if v, ok := e.Data[idx+1].(*IRVal); ok {
+					if n, isOp := operand[v]; isOp && !temps[n] {
+						bad = append(bad, in.L.Pos(e.Pos)+": the operand "+n+", which is not a temporary, is handed to "+e.Msg+", which takes its buffer over and empties it: the variable it belongs to loses its value")
+					}
+				}
+			}
+			for i, a := range e.Data[1:] {
+				v, ok := a.(*IRVal)
+				if !ok || v.Op != "alloca" {
+					continue
+				}
+				if i == 0 {
+					if _, was := owning[v]; !was {
+						owning[v] = "result of " + e.Msg + " at " + in.L.Pos(e.Pos)
+					}
+				} else if _, own := owning[v]; own && strings.Contains(e.Msg, "concat") {
+					handed[v] = true // concatenation functions take their claimed operand over (R5.7)
+				}
+			}
+		case e.Kind == "store":
+			// store(load(x), dest): the value of x moves into dest
+			if val, ok := e.Data[0].(*IRVal); ok && val.Op == "load" && len(val.Args) == 1 {
+				if d, ok := e.Data[1].(*IRVal); ok {
+					src := val.Args[0]
+					if handed[src] || owning[src] != "" {
+						handed[src] = true
+						if d.Op == "alloca" {
+							owning[d] = "value moved in at " + in.L.Pos(e.Pos)
+						}
+					}
+				}
+			}
+		}
+	}
+	ret, _ := cobj.get("latestReturn").(*IRVal)
+	rt, _ := cobj.get("latestReturnType").(*GenT)
+	isTemp, known := truth(cobj.get("latestIsTemp"))
+	if isDest != nil {
+		ret, rt = nil, nil
+	}
+	if rt != nil && !rt.prim() && ret != nil {
+		if !known {
+			bad = append(bad, "latestIsTemp is not determined for a non-primitive result")
+		} else if isTemp && !ledger[ret] {
+			bad = append(bad, "the visitor reports its non-primitive result as a temporary, but the result is not registered in the scope's temporaries: a consumer that claims it makes the compiler panic, and nothing releases it otherwise")
+		} else if !isTemp {
+			for _, cpt := range irComponents(ret) {
+				if how, own := owning[cpt]; own && !ledger[cpt] && !ledger[ret] && !handed[cpt] {
+					bad = append(bad, "the visitor returns a freshly created value ("+how+") as a non-temporary without registering it: the consumer copies it and nothing releases the original")
+				}
+			}
+		}
+	}
+	var allocs []*IRVal
+	for a := range owning {
+		allocs = append(allocs, a)
+	}
+	sort.Slice(allocs, func(i, j int) bool { return allocs[i].Src < allocs[j].Src })
+	for _, a := range allocs {
+		if ledger[a] || handed[a] || (isDest != nil && isDest(a)) {
+			continue
+		}
+		inResult := false
+		for _, cpt := range irComponents(ret) {
+			if cpt == a {
+				inResult = true
+			}
+		}
+		if inResult && (ledger[ret] || (known && !isTemp)) {
+			continue // covered above
+		}
+		if !inResult {
+			bad = append(bad, "a value created here ("+owning[a]+") is neither registered as a temporary, handed to a callee that takes it over, nor moved: it leaks")
+		}
+	}
+	return uniq(bad)
+}
+
+func checkC05Ledger(c *Check, L *Loaded) {
+	r := c.Rule("R5.1", "expression visitors keep the temporaries ledger consistent with what they report: results flagged temporary are registered, nothing borrowed is registered or released, every value created is registered, handed over or moved", 150)
+	tier := "quick"
+	if c.Tier == "thorough" {
+		tier = "thorough"
+	}
+	t := computeCheckerTables(L, tier)
+	in, mk := newGeneratorInterp(L)
+	type job struct {
+		keys   []string
+		m      map[string]*ChkCell
+		method string
+		kind   string
+		names  []string
+	}
+	jobs := []job{{t.keysU, t.Unary, "VisitUnaryExpr", "ast.UnaryExpr", []string{"rhs"}}, {t.keysB, t.Binary, "VisitBinaryExpr", "ast.BinaryExpr", []string{"lhs", "rhs"}}, {t.keysT, t.Ternary, "VisitTernaryExpr", "ast.TernaryExpr", []string{"lhs", "mid", "rhs"}}, {t.keysC, t.Cast, "VisitCastExpr", "ast.CastExpr", []string{"lhs"}}}
+	fields := map[string]string{"lhs": "Lhs", "mid": "Mid", "rhs": "Rhs"}
+	// which argument a C concatenation function takes over is read off the C source (takenOverByC), independently of the generator
+	takenOver = map[string][]int{}
+	if P, err := LoadC(repoDir(), true); err == nil {
+		takenOver = takenOverByC(L, P)
+	}
+	c.extra["operands_taken_over_by_c_concat"] = fmt.Sprint(takenOver)
+	type agg struct {
+		n   int
+		bad []string
+	}
+	groups := map[string]*agg{}
+	var order []string
+	for _, jb := range jobs {
+		for _, k := range jb.keys {
+			cc := jb.m[k]
+			if adm, dec := cc.Admitted(); !dec || !adm {
+				continue
+			}
+			ds := t.coords[k]
+			ops := ds
+			if jb.method == "VisitCastExpr" {
+				ops = ds[1:]
+			}
+			any, void := false, false
+			for _, d := range ds {
+				if d.Kind == "VOID" {
+					void = true
+				}
+				if nonPrimDT(d) {
+					any = true
+				}
+			}
+			if !any || void {
+				continue
+			}
+			var npIdx []int
+			for i, d := range ops {
+				if nonPrimDT(d) {
+					npIdx = append(npIdx, i)
+				}
+			}
+			for mask := 0; mask < 1<<len(npIdx); mask++ {
+				var node *Obj
+				if jb.method == "VisitCastExpr" {
+					node = genNode(jb.kind, nil, jb.names, ops)
+					node.set("TargetType", TypeV{ds[0]})
+				} else {
+					node = genNode(jb.kind, opVal(t.ops[k]), jb.names, ops)
+				}
+				temps := map[string]bool{}
+				var flags []string
+				for i, nm := range jb.names {
+					o := node.get(fields[nm]).(*Obj)
+					tf := false
+					for bi, ix := range npIdx {
+						if ix == i && mask&(1<<bi) != 0 {
+							tf = true
+						}
+					}
+					o.set("temp", boolV(tf))
+					temps[nm] = tf
+					if nonPrimDT(ops[i]) {
+						if tf {
+							flags = append(flags, nm+" temporary")
+						} else {
+							flags = append(flags, nm+" not temporary")
+						}
+					}
+				}
+				gk := jb.method + " " + groupKey(cellVerdict{Key: k, Classes: ds, Op: t.ops[k].Name, Method: jb.method}) + "|" + strings.Join(flags, ", ")
+				g := groups[gk]
+				if g == nil {
+					g = &agg{}
+					groups[gk] = g
+					order = append(order, gk)
+				}
+				in.RunAll(64, func() {
+					cobj := mk()
+					in.CallFunc(L.Fn("src/compiler.(*compiler)."+jb.method), cobj, []Val{node})
+					for _, e := range in.Events {
+						if e.Kind == "cerr" || e.Kind == "panic" {
+							return // C02's business
+						}
+					}
+					g.n++
+					g.bad = append(g.bad, analyseLedger(in, cobj, temps)...)
+				})
+			}
+		}
+	}
+	for _, gk := range order {
+		g := groups[gk]
+		if g.n == 0 {
+			continue
+		}
+		r.Decide(len(g.bad) == 0, "compiler.(*compiler)."+gk, token.NoPos, "ledger consistent", strings.Join(uniq(g.bad), "; "))
+	}
+}
+
+// ---- R5.6: statements that store a value into an owned destination ----
+
+// storeProtocol inspects how the destination D receives its value: a deep copy, or a bitwise move of a value whose ownership
+// was given up before (claimed temporary / fresh value). Returns problems; freeFirst demands a release of D before.
+func storeProtocol(in *Interp, isDest func(*IRVal) bool, temps map[string]bool, freeFirst bool) (inits int, bad []string) {
+	claimed := map[*IRVal]bool{}
+	operand := map[*IRVal]string{}
+	type initEv struct {
+		pos    string
+		owning bool   // establishes ownership of a block: deep copy, or move of a claimed temporary
+		alias  string // non-empty: bitwise move of a value someone else still owns
+	}
+	var seq []initEv
+	freedSinceInit := false
+	everFreed := false
+	for _, e := range in.Events {
+		switch {
+		case strings.HasPrefix(e.Kind, "evaluate:"):
+			if v, ok := e.Data[1].(*IRVal); ok {
+				operand[v] = strings.TrimPrefix(e.Kind, "evaluate:")
+			}
+		case e.Kind == "claim":
+			if v, ok := e.Data[0].(*IRVal); ok {
+				claimed[v] = true
+			}
+		case e.Kind == "call" && strings.HasSuffix(e.Msg, ".FreeFunc"):
+			if v, ok := e.Data[1].(*IRVal); ok && isDest(v) {
+				if len(seq) > 0 {
+					bad = append(bad, in.L.Pos(e.Pos)+": the destination is released after its new value was stored")
+				}
+				if everFreed {
+					bad = append(bad, in.L.Pos(e.Pos)+": the destination is released twice")
+				}
+				everFreed, freedSinceInit = true, true
+			}
+		case e.Kind == "deepCopy":
+			if d, ok := e.Data[0].(*IRVal); ok && isDest(d) {
+				seq = append(seq, initEv{pos: in.L.Pos(e.Pos), owning: true})
+			}
+		case e.Kind == "store":
+			d, ok := e.Data[1].(*IRVal)
+			if !ok || !isDest(d) {
+				continue
+			}
+			val, _ := e.Data[0].(*IRVal)
+			if val == nil || val.Op != "load" || len(val.Args) != 1 {
+				continue
+			}
+			src := val.Args[0]
+			ev := initEv{pos: in.L.Pos(e.Pos)}
+			if n, isOp := operand[src]; isOp {
+				if claimed[src] {
+					ev.owning = true
+				} else if temps[n] {
+					ev.alias = "the temporary " + n + " is moved into the destination bitwise without being claimed: the scope end releases the block the destination now owns"
+				} else {
+					ev.alias = "the value of " + n + ", which is not a temporary, is moved into the destination bitwise instead of being copied: two owners share one block (a change through one is seen through the other, and it is released twice)"
+				}
+			} else {
+				ev.owning = true // a fresh value built in place
+			}
+			seq = append(seq, ev)
+		}
+	}
+	_ = freedSinceInit
+	inits = len(seq)
+	if inits == 0 {
+		return
+	}
+	if freeFirst && !everFreed {
+		bad = append(bad, seq[0].pos+": the destination still owns its old value when the new one is stored: the old value leaks")
+	}
+	last := seq[len(seq)-1]
+	if last.alias != "" {
+		bad = append(bad, last.pos+": "+last.alias)
+	}
+	for _, ev := range seq[:len(seq)-1] {
+		if ev.owning {
+			bad = append(bad, ev.pos+": a value the destination already owns is overwritten by a later store without being released: it leaks")
+		}
+	}
+	return
+}
+
+func checkC05Stores(c *Check, L *Loaded) {
+	r := c.Rule("R5.6", "a statement that stores into an owned destination releases the old value first and then copies a non-temporary or claims and moves a temporary, exactly once", 20)
+	in, mk := newGeneratorInterp(L)
+	npTypes := []*DT{{Kind: "TEXT"}, {Kind: "LIST", Elem: &DT{Kind: "ZAHL"}}, {Kind: "LIST", Elem: &DT{Kind: "TEXT"}}, {Kind: "VARIABLE"}, {Kind: "STRUCT", Name: "Punkt"}}
+	type scen struct {
+		name      string
+		method    string
+		freeFirst bool
+		build     func(d *DT, temp bool) (*Obj, func(*IRVal) bool)
+	}
+	varIdent := func(d *DT) *Obj {
+		decl := newObj("ast.VarDecl")
+		decl.set("Type", TypeV{d})
+		id := newObj("ast.Ident")
+		id.set("Declaration", decl)
+		return id
+	}
+	scens := []scen{
+		{"VisitAssignStmt to a variable", "VisitAssignStmt", true, func(d *DT, temp bool) (*Obj, func(*IRVal) bool) {
+			n := newObj("ast.AssignStmt")
+			rhs := exprNode("Rhs", d)
+			rhs.set("temp", boolV(temp))
+			n.set("Rhs", rhs)
+			n.set("Var", varIdent(d))
+			n.set("VarType", TypeV{d})
+			n.set("RhsType", TypeV{d})
+			return n, func(v *IRVal) bool { return v.Op == "operand" && v.Src == "var" }
+		}},
+		{"VisitAssignStmt to a list element", "VisitAssignStmt", true, func(d *DT, temp bool) (*Obj, func(*IRVal) bool) {
+			n := newObj("ast.AssignStmt")
+			rhs := exprNode("Rhs", d)
+			rhs.set("temp", boolV(temp))
+			n.set("Rhs", rhs)
+			ix := newObj("ast.Indexing")
+			ix.set("Lhs", varIdent(&DT{Kind: "LIST", Elem: d}))
+			ix.set("Index", exprNode("Index", &DT{Kind: "ZAHL"}))
+			n.set("Var", ix)
+			n.set("VarType", TypeV{d})
+			n.set("RhsType", TypeV{d})
+			return n, func(v *IRVal) bool { return v.Op == "elementptr" }
+		}},
+		{"VisitVarDecl (local)", "VisitVarDecl", false, func(d *DT, temp bool) (*Obj, func(*IRVal) bool) {
+			n := newObj("ast.VarDecl")
+			n.set("Type", TypeV{d})
+			n.set("InitType", TypeV{d})
+			iv := exprNode("InitVal", d)
+			iv.set("temp", boolV(temp))
+			n.set("InitVal", iv)
+			n.set("name", StrV("v"))
+			// the declaration's own slot is the first alloca of the run
+			return n, nil
+		}},
+		{"VisitReturnStmt with a value", "VisitReturnStmt", false, func(d *DT, temp bool) (*Obj, func(*IRVal) bool) {
+			n := newObj("ast.ReturnStmt")
+			v := exprNode("Value", d)
+			v.set("temp", boolV(temp))
+			n.set("Value", v)
+			fd := newObj("ast.FuncDecl")
+			fd.set("ReturnType", TypeV{d})
+			n.set("Func", fd)
+			return n, func(v *IRVal) bool { return v.Op == "retparam" }
+		}},
+	}
+	for _, sc := range scens {
+		for _, d := range npTypes {
+			for _, temp := range []bool{false, true} {
+				var bad []string
+				runs, inits := 0, 0
+				in.RunAll(64, func() {
+					cobj := mk()
+					fobj := newObj("ir.Func")
+					fobj.set("Params", SliceV{Elems: []Val{&IRVal{Op: "retparam", Class: "ptr"}}})
+					cobj.set("cf", fobj)
+					cobj.set("cfscp", newObj("scope"))
+					node, isDest := sc.build(d, temp)
+					var firstAlloca *IRVal
+					if isDest == nil {
+						isDest = func(v *IRVal) bool { return firstAlloca != nil && v == firstAlloca }
+					}
+					before := allocaSeq
+					in.CallFunc(L.Fn("src/compiler.(*compiler)."+sc.method), cobj, []Val{node})
+					for _, e := range in.Events {
+						if e.Kind == "cerr" || e.Kind == "panic" {
+							return
+						}
+					}
+					if sc.method == "VisitVarDecl" {
+						// find the first alloca created in this run (the variable's slot)
+						want := fmt.Sprint("a", before+1)
+						for _, e := range in.Events {
+							for _, dv := range e.Data {
+								if v, ok := dv.(*IRVal); ok && v.Op == "alloca" && v.Src == want {
+									firstAlloca = v
+								}
+							}
+						}
+					}
+					runs++
+					key := "Rhs"
+					switch sc.method {
+					case "VisitVarDecl":
+						key = "InitVal"
+					case "VisitReturnStmt":
+						key = "Value"
+					}
+					n, b := storeProtocol(in, isDest, map[string]bool{key: temp}, sc.freeFirst)
+					inits += n
+					bad = append(bad, b...)
+					if n == 0 {
+						bad = append(bad, "the destination never receives the value")
+					}
+					bad = append(bad, analyseLedger(in, cobj, map[string]bool{key: temp}, isDest)...)
+				})
+				tf := "not temporary"
+				if temp {
+					tf = "temporary"
+				}
+				k := "compiler.(*compiler)." + sc.name + "|" + toGen(d).String() + ", value " + tf
+				if runs == 0 {
+					r.Und(k, token.NoPos, "not evaluated")
+					continue
+				}
+				r.Decide(len(bad) == 0, k, token.NoPos, "old value released first (where there is one); copy of a non-temporary / claim and move of a temporary; once", strings.Join(uniq(bad), "; "))
+			}
+		}
+	}
+}
+
+// R5.3 (generator side): freeArr/growArr state the capacity field of the list whose array field they release or resize.
+func checkC05GoSizes(c *Check, L *Loaded, r *Rule) {
+	cp := L.ByRel["src/compiler"]
+	info := cp.TypesInfo
+	for _, fi := range L.sortedFuncs() {
+		if fi.Pkg != cp || fi.Decl.Body == nil {
+			continue
+		}
+		// locals defined once
+		alias := map[types.Object]ast.Expr{}
+		ast.Inspect(fi.Decl.Body, func(n ast.Node) bool {
+			if as, ok := n.(*ast.AssignStmt); ok && as.Tok == token.DEFINE && len(as.Lhs) == len(as.Rhs) {
+				for i, l := range as.Lhs {
+					if id, ok := l.(*ast.Ident); ok && info.Defs[id] != nil {
+						alias[info.Defs[id]] = as.Rhs[i]
+					}
+				}
+			}
+			return true
+		})
+		resolve := func(e ast.Expr) ast.Expr {
+			for i := 0; i < 4; i++ {
+				id, ok := ast.Unparen(e).(*ast.Ident)
+				if !ok {
+					break
+				}
+				a, ok := alias[info.Uses[id]]
+				if !ok {
+					break
+				}
+				e = a
+			}
+			return e
+		}
+		fieldOfList := func(e ast.Expr) (base, field string, ok bool) {
+			call, isCall := resolve(e).(*ast.CallExpr)
+			if !isCall || len(call.Args) != 2 {
+				return
+			}
+			if fn := Callee(info, call); fn == nil || fn.Name() != "loadStructField" {
+				return
+			}
+			return types.ExprString(call.Args[0]), types.ExprString(call.Args[1]), true
+		}
+		n := 0
+		ast.Inspect(fi.Decl.Body, func(nd ast.Node) bool {
+			call, ok := nd.(*ast.CallExpr)
+			if !ok {
+				return true
+			}
+			fn := Callee(info, call)
+			if fn == nil || (fn.Name() != "freeArr" && fn.Name() != "growArr") || fn.Pkg() != cp.Types {
+				return true
+			}
+			n++
+			key := fmt.Sprintf("%s|%s", L.QName(fi.Obj), fn.Name())
+			if n > 1 {
+				key += fmt.Sprintf(" #%d", n)
+			}
+			pb, pf, ok1 := fieldOfList(call.Args[0])
+			sb, sf, ok2 := fieldOfList(call.Args[1])
+			switch {
+			case !ok1 || !ok2:
+				r.Und(key, call.Pos(), "pointer or old size is not read from a list field: "+types.ExprString(call))
+			case pf == "list_arr_field_index" && sf == "list_cap_field_index" && pb == sb:
+				r.OK(key, call.Pos(), "array and capacity of "+pb)
+			default:
+				r.Bad(key, call.Pos(), fmt.Sprintf("the array of %s (%s) is released/resized stating %s of %s as its old size: the size given to ddp_reallocate is not the size of the block", pb, pf, sf, sb))
 			}
 			return true
 		})
